@@ -109,6 +109,23 @@ fn recover_value(root: &Path, ratio: u64) -> Value {
                          "code": mani::error_code(&e).unwrap_or("?")}),
     }));
     let mut v = r.unwrap_or(json!({"op": "recover-panic"}));
+    // the recovered manifest must be usable: one more edit, one more reopen
+    if v["op"] == "recovered" {
+        let after = catch_unwind(AssertUnwindSafe(|| -> Result<Value, String> {
+            let mut m = Manifest::open(opts(ratio), root).map_err(|e| format!("{e:?}"))?;
+            let mut e = Edit::default();
+            e.add("after-recovery").map_err(|e| format!("{e:?}"))?;
+            m.apply(e).map_err(|e| format!("{e:?}"))?;
+            drop(m);
+            let m = Manifest::open(opts(ratio), root).map_err(|e| format!("{e:?}"))?;
+            Ok(state_of(&m))
+        }));
+        v["after"] = match after {
+            Ok(Ok(s)) => s,
+            Ok(Err(e)) => json!({"error": e.chars().take(160).collect::<String>()}),
+            Err(_) => json!({"error": "panic"}),
+        };
+    }
     // fragment chaining as the repository's own checker sees it (after the open above rolled over)
     let errs: Vec<String> = Manifest::verify(opts(ratio), root).map(|e| format!("{e:?}").chars().take(160).collect()).collect();
     v["verify_errors"] = json!(errs);
@@ -175,7 +192,9 @@ pub fn cuts(args: &[String]) -> ! {
         let f = std::fs::OpenOptions::new().write(true).open(d.join("MANIFEST")).unwrap();
         f.set_len(cut as u64).unwrap();
         drop(f);
-        let mut v = recover_value(&d, ratio);
+        // alternate between the run's own ratio and one that never rolls over after an edit, so
+        // that what follows a torn tail stays in the same file
+        let mut v = recover_value(&d, if cut % 2 == 0 { ratio } else { 1000 });
         v["cut"] = json!(cut);
         v["op"] = json!(format!("cut-{}", v["op"].as_str().unwrap()));
         writeln!(out, "{}", json!({"call": "mark", "n": 0, "mark": v})).unwrap();
